@@ -336,9 +336,46 @@ class Runner:
             r = R[s["a"]].diff(self.dom.delta(s["d"]))
             R[s["r"]] = r
             return self.frame_obs(r)
+        if k == "resample":
+            r = self.slicer(R[s["a"]], s).resample(s["stat"])
+            R[s["r"]] = r
+            return self.frame_obs(r)
+        if k == "agg":
+            ms = [R[m] for m in s["ms"]]
+            cont = self.fl.get("coll", "list")
+            if cont == "tuple":
+                coll = tuple(ms)
+            elif cont == "dict":
+                coll = {f"k{i}": m for i, m in enumerate(ms)}
+            elif cont == "ndarray":
+                coll = np.array(ms, dtype=object)
+            elif cont == "series":
+                coll = pd.Series(ms, dtype="Stairs")
+            elif cont == "array":
+                coll = sc.StairsArray(ms)
+            else:
+                coll = list(ms)
+            fn = {"sum": sc.sum, "mean": sc.mean, "median": sc.median, "min": sc.min, "max": sc.max,
+                  "logical_or": sc.logical_or, "logical_and": sc.logical_and}[s["g"]]
+            if cont == "accessor" and s["g"] in ("logical_or", "logical_and"):
+                r = getattr(pd.Series(ms, dtype="Stairs").sc, s["g"])()
+            elif cont == "method":
+                r = getattr(sc.StairsArray(ms), s["g"])()
+            else:
+                r = fn(coll)
+            R[s["r"]] = r
+            return self.frame_obs(r)
         if k == "query":
             return self.query(s)
         raise ValueError(k)
+
+    def slicer(self, st, s):
+        ivs = [(self.dom.to(a), self.dom.to(b)) for a, b in s["ivs"]]
+        contiguous = all(ivs[i][1] == ivs[i + 1][0] for i in range(len(ivs) - 1))
+        how = self.fl.get("cuts", "index")
+        if how == "breaks" and contiguous and ivs:
+            return st.slice([ivs[0][0]] + [b for _, b in ivs], closed=s["icl"])
+        return st.slice(pd.IntervalIndex.from_tuples(ivs, closed=s["icl"]))
 
     def where_arg(self, s):
         return (self.bound(s.get("lo")), self.bound(s.get("hi")))
@@ -436,6 +473,46 @@ class Runner:
                 return {"t": "val", "val": num(v)}
             v = st.agg(name, self.where_arg(s), **kw)
             return {"t": "val", "val": d.length_back(v) if name == "integral" else num(v)}
+        if q == "slicer":
+            sl = self.slicer(st, s)
+            name = s["stat"]
+            how = self.fl.get("slicecall", "direct")
+            if how == "agg":
+                res = sl.agg([name])[name]
+            elif how == "apply" and name in ("mean", "integral", "median", "mode"):
+                res = sl.apply(getattr(sc.Stairs, name))
+            else:
+                res = getattr(sl, name)()
+            conv = d.length_back if name == "integral" else num
+            return {"t": "vals", "vals": [conv(v) for v in list(res.values)]}
+        if q in ("cov", "corr"):
+            other = self.regs[s["b"]]
+            kw = {}
+            if s.get("lo") is not None or s.get("hi") is not None:
+                kw["where"] = self.where_arg(s)
+            lag = s.get("lag", 0)
+            if lag != 0:
+                kw["lag"] = d.delta(lag)
+                kw["clip"] = s.get("clip", "pre")
+            v = getattr(st, q)(other, **kw)
+            if q == "cov":
+                return {"t": "val", "val": num(v)}
+            c = num(v)
+            return {"t": "val", "val": None if c is None else F(float(c) * abs(float(c)))}
+        if q == "rolling":
+            kw = {}
+            if s.get("lo") is not None or s.get("hi") is not None:
+                kw["where"] = self.where_arg(s)
+            res = st.rolling_mean(window=(d.delta(s["l"]), d.delta(s["rr"])), **kw)
+            return {"t": "ser", "rows": [(d.back(k), num(v)) for k, v in zip(res.index.tolist(), res.values.tolist())]}
+        if q == "describe":
+            kw = {}
+            if s.get("lo") is not None or s.get("hi") is not None:
+                kw["where"] = self.where_arg(s)
+            res = st.describe(percentiles=[float(p) for p in s["ps"]], **kw)
+            vals = list(res.values)
+            out = [num(vals[0]), num(vals[1]), None if num(vals[2]) is None else F(float(vals[2]) ** 2)] + [num(v) for v in vals[3:]]
+            return {"t": "vals", "vals": out}
         raise ValueError(q)
 
     def run(self, prog):
